@@ -598,7 +598,9 @@ func runScenario(r *rand.Rand, scn int, nq, nwrites int, garble bool) ([]Ev, err
 			if !p.bad {
 				p.bad = true
 				re := p.evs[len(p.evs)-1].Event.(*replication.RowsEvent)
-				if r.Intn(2) == 0 {
+				// (on the legacy table a row cut by one column IS a row of the table once the column has been dropped:
+				// only the other kind of damage is beyond doubt there)
+				if r.Intn(2) == 0 && !legacy {
 					for i := range re.Rows { // one column fewer than the table has
 						re.Rows[i] = re.Rows[i][:len(re.Rows[i])-1]
 					}
